@@ -206,7 +206,17 @@ J gen_tunnel(uint64_t seed, const J &ov)
 			else { op.set("len", (int)r.range(40, std::max(41, F - 30))); static const char *bodies[4] = {"rnd", "zero", "ff", "text"}; op.set("body", bodies[r.range(0, 3)]); }
 			ops.push(op);
 		}
-		gen_traffic(r, ops, "c0", "srv", (int)r.range(5, 25), 0.1, W, ser, 1200, true);
+		// upstream: many multi-fragment frames, the later ones aligned with the client's chunk size as observed on the wire
+		n = (int)r.range(15, 50);
+		t = 0.2;
+		for (int i = 0; i < n; i++) {
+			t += r.chance(0.5) ? r.uniform() * 0.3 : r.uniform() * 1.5;
+			if (t > W) t = 0.2 + r.uniform() * W;
+			J op = J::obj(); op.set("t", (long long)(t * 1e6)); op.set("op", "tun"); op.set("at", "c0"); op.set("ser", (long long)++ser);
+			op.set("dst", "srv"); op.set("src", "c0");
+			op.set("len", (int)r.range(300, 1400)); op.set("body", "nested"); if (r.chance(0.85)) op.set("align", "auto_up");
+			ops.push(op);
+		}
 		J f = J::obj();
 		f.set("ref", "T0"); f.set("t0_us", (long long)0); f.set("t1_us", (long long)(W * 1e6));
 		f.set("p_stale", 0.3 + r.uniform() * 0.7);
@@ -353,7 +363,7 @@ World *build_tunnel(const J &plan)
 	else if (mode == "clean9") { w->add(mk_c02_delivery(w, true, false, "C09")); w->add(mk_c09_probe_judge(w)); }
 	else if (mode == "names") { w->add(mk_c02_delivery(w, true, false, "C02")); w->add(mk_c08_names(w)); }
 	else w->add(mk_c02_delivery(w, mode == "clean", mode == "recover"));
-	w->add(mk_c15_fragsize(w));
+	if (mode != "stale") w->add(mk_c15_fragsize(w));     // stale: replays of old cached answers interleave with the current packet on the wire; C15 is judged elsewhere
 	bool dupish = w->cfg["faults"].getd("p_dup") > 0 || w->cfg["faults"].getd("p_redeliv") > 0;
 	w->add(mk_c14_ledger(w, !dupish));
 	w->add(mk_probes(w));
